@@ -236,7 +236,7 @@ NOT_APPLICABLE = [
 
 MANIFEST_TEXT = {
     "C16": {
-        "level_text": "Reduced scope: bounded model checking of the logic zerolog itself wrote on top of the decoded event map (field selection, exclusion, ordering, quoting decision, part dispatch and spacing) on symbolic events with recording formatters, against reference renderings written in the harness.",
+        "level_text": "Bounded model checking of the logic zerolog itself wrote on top of the decoded event map (field selection, exclusion, ordering incl. the error-first move, quoting decision, part dispatch and spacing) on symbolic events with recording formatters, against reference renderings written in the harness, and of ConsoleWriter.Write as a whole (pooled buffer, single write, error returns, determinism) with encoding/json's decoder as an environment stub.",
         "design_ref": "DESIGN.md §3 C16",
         "level_note": "ConsoleWriter.Write's own control flow (pooled buffer, parts, fields, extra, newline, single write, error returns) is decided with the JSON decoder as an environment stub; encoding/json's decoding itself, fmt's default formatters, strconv.Quote's escaping, time parsing/formatting and os.Getwd cannot be encoded within reach and are not claimed.",
     },
@@ -272,7 +272,7 @@ MANIFEST_TEXT = {
     "C02": {
         "level_text": "Bounded model checking of semantic round trips and of relational equality between entry points on the real encoder: values are symbolic over their full width, the reference decoders/renderers are short Go functions in the harness executed symbolically alongside the implementation, and the solver decides equality for every value within the bounds.",
         "design_ref": "DESIGN.md §3 C02",
-        "level_note": "Numeric tokens are opaque (an uninterpreted function of the value): what is decided is which value, width, signedness, format and precision reach strconv, not strconv's digits. Strings <= 2-3 bytes.",
+        "level_note": "Numeric tokens are opaque (an uninterpreted function of the value): what is decided is which value, width, signedness, format and precision reach strconv, not strconv's digits. Strings <= 2-3 bytes. IP / prefix / MAC notations are decided on package net's real code (group 'net').",
     },
     "C06": {
         "level_text": "Not schedule exploration: the property quantifies over interleavings, which this technique cannot encode for sync.Pool internals and user writers. What is decided, by symbolic execution of the real finalizer and consumer paths, is the ownership protocol (linearity of pooled objects, single complete write, copy-on-consume, pool size cap, mutex bracketing) from which schedule-independence follows given sync.Pool's contract.",
